@@ -182,6 +182,13 @@ def gen_cases(run):
                           nsplits=None, refill=r.choice([2, 5, 20]), nval=r.randint(20, 80), val_spread=1.0,
                           method='fixed_vector', task='reg', outputs=1, classes=2, mode='zero_one', stub=True, iters=0,
                           dseed=r.randint(0, 10 ** 6)))
+    # nodes whose targets are all equal (regression target max(0, x_0): zero on a half space): every split method still has
+    # to produce a usable direction there
+    for k in range(6 if run.tier == 'quick' else 40):
+        L = r.choice([16, 24, 30])
+        cases.append(dict(family='constant-target-nodes', n=r.randint(5 * L, 9 * L), d=r.randint(2, 4), L=L, f=0.0, nsplits=None, refill=r.choice([5, 20]),
+                          nval=r.randint(40, 120), val_spread=1.0, method=['linear', 'linear', 'rf_criterion', 'pca'][k % 4] if k % 2 == 0 else 'linear',
+                          task='relu', outputs=1, classes=2, mode='zero_one', stub=True, iters=0, dseed=r.randint(0, 10 ** 6)))
     # a node above the sizes at which libraries start to estimate quantiles from subsamples (tens of thousands of rows):
     # one split at the root, leaf models stubbed
     for k in range(1 if run.tier == 'quick' else 4):
